@@ -16,6 +16,9 @@ package main
 // No model cases: the tie for C13/C14 is the generated coq/Gen/Locks.v.
 
 import (
+	"berty.tech/go-ipfs-log/enc"
+	"berty.tech/go-ipfs-log/entry"
+	"berty.tech/go-ipfs-log/io/cbor"
 	"bytes"
 	"context"
 	"encoding/json"
@@ -201,16 +204,29 @@ func (d *c13DenyAC) CanAppend(e accesscontroller.LogEntry, _ idp.Interface, _ ac
 	return nil
 }
 
+// c13IO, when set, is the codec of every log of the case being set up (a link-encrypting cbor codec
+// shared by all of them, as replicas of one encrypted log share it)
+var c13IO iface.IO
+
 func c13NewLog(api *memAPI, id *idp.Identity, ac accesscontroller.Interface) *ipfslog.IPFSLog {
-	l, err := ipfslog.NewLog(api, id, &ipfslog.LogOptions{ID: "X", AccessController: ac})
+	l, err := ipfslog.NewLog(api, id, &ipfslog.LogOptions{ID: "X", AccessController: ac, IO: c13IO})
 	if err != nil {
 		panic(err)
 	}
 	return l
 }
 
+// c13Pad, when > 0, pads every payload of the case being set up to that many bytes, and appends use
+// skip references
+var c13Pad int
+
 func c13MustAppend(l *ipfslog.IPFSLog, payload string) iface.IPFSLogEntry {
-	e, err := l.Append(context.Background(), []byte(payload), nil)
+	var opts *ipfslog.AppendOptions
+	if c13Pad > len(payload) {
+		payload += strings.Repeat(".", c13Pad-len(payload))
+		opts = &ipfslog.AppendOptions{PointerCount: 4}
+	}
+	e, err := l.Append(context.Background(), []byte(payload), opts)
 	if err != nil {
 		panic(err)
 	}
@@ -235,7 +251,8 @@ type c13Case struct {
 	Scenario string    `json:"scenario"`
 	Mode     string    `json:"mode"` // free | forced
 	Seed     int64     `json:"seed"`
-	Deny     bool      `json:"deny,omitempty"` // destination refuses the source's entries
+	Deny     bool      `json:"deny,omitempty"`  // destination refuses the source's entries
+	Keyed    bool      `json:"keyed,omitempty"` // all logs use one link-encrypting codec, payloads of 9 KiB, skip references
 	Workers  [][]c13Op `json:"workers"`
 	Park     *c13Park  `json:"park,omitempty"`
 }
@@ -256,6 +273,9 @@ func (c c13Case) signature() string {
 	}
 	if c.Deny {
 		s += "|deny"
+	}
+	if c.Keyed {
+		s += "|keyed"
 	}
 	return s
 }
@@ -321,6 +341,18 @@ func c13Hashes(es []iface.IPFSLogEntry) []string {
 func c13Setup(c c13Case) *c13Run {
 	env := c13GetEnv()
 	api, _ := newAPI()
+	c13IO, c13Pad = nil, 0
+	if c.Keyed {
+		key, err := enc.NewSecretbox([]byte("0123456789abcdef0123456789abcdef"))
+		if err != nil {
+			panic(err)
+		}
+		dio, err := cbor.IO(&entry.Entry{}, &entry.LamportClock{})
+		if err != nil {
+			panic(err)
+		}
+		c13IO, c13Pad = dio.ApplyOptions(&cbor.Options{LinkKey: key}), 9000
+	}
 	var ac accesscontroller.Interface
 	if c.Deny {
 		ac = &c13DenyAC{prefix: "s"}
@@ -869,6 +901,7 @@ func (t *c13Tally) addFailure(f monitorFailure) {
 
 // runCase executes one case, evaluates monitors, attributes fresh race reports to it
 func (t *c13Tally) runCase(c c13Case) *c13Run {
+	announce(c)
 	r := c13Setup(c)
 	ok := r.execute()
 	t.res.Evaluations++
@@ -987,6 +1020,9 @@ func runC13(seed int64, tier string, outDir string) *result {
 		kinds := append(append([]string{}, c13Kinds...), "joinb")
 		if i%4 == 3 {
 			c.Deny = true // refused merges: the verification workers report errors
+		}
+		if i%8 == 1 || i%8 == 6 {
+			c.Keyed = true // sealed links and large payloads: the verification workers share the codec
 		}
 		for w := 0; w < nw; w++ {
 			var ops []c13Op
